@@ -574,6 +574,7 @@ fn sound_under_concurrency(v: &Viol) -> bool {
             | ("C03", "probe-blocked")
             | ("C03", "connection-in-limbo")
             | ("C14", "background-connection-lost")
+            | ("C14", "released-bypasses-waiting")
             | (_, "panic")
     )
 }
